@@ -4,6 +4,7 @@
 // `g rawarrow cnt idx`, `g mhadv cnt idx diff`, `g mharrow cnt idx` (DataRawMultiHashIterator of FindByMultiHash bounds); output as harness3.cpp (A=<new index> | A | R | CRASH..).  Each case runs in a forked child.
 #include "private_access.h"
 #include <unistd.h>
+#include <signal.h>
 #include <sys/wait.h>
 #include "momo/Array.h"
 #include "momo/SegmentedArray.h"
@@ -68,14 +69,16 @@ static std::string dispatch(const std::string& line)
 int main()
 {
 	std::string line;
+	int timedOut = 0;
 	while (std::getline(std::cin, line))
 	{
+		if (timedOut >= 6) { printf("CRASH skipped (6 cases already ran into the 10 s limit)\n"); continue; }
 		int fd[2]; if (pipe(fd) != 0) return 3;
 		fflush(stdout);
 		pid_t pid = fork();
 		if (pid == 0)
 		{
-			alarm(30); close(fd[0]);
+			alarm(10); close(fd[0]);
 			std::string res = dispatch(line);
 			if (write(fd[1], res.data(), res.size()) < 0) _exit(4);
 			_exit(0);
@@ -85,6 +88,7 @@ int main()
 		while ((n = read(fd[0], buf, sizeof buf)) > 0) res.append(buf, size_t(n));
 		close(fd[0]);
 		int st = 0; waitpid(pid, &st, 0);
+		if (WIFSIGNALED(st) && WTERMSIG(st) == SIGALRM) ++timedOut;
 		if (WIFSIGNALED(st)) res = "CRASH signal " + std::to_string(WTERMSIG(st));
 		else if (WEXITSTATUS(st) != 0) res = "CRASH exit " + std::to_string(WEXITSTATUS(st)) + " (sanitizer)";
 		printf("%s\n", res.c_str());
